@@ -140,6 +140,11 @@ def ev(t, env):
         b = bits_of(v, w)
         r = ((b << amt) | (b >> (w - amt))) & mask(w)
         return (r, w, False)
+    if k in ("idx", "slice") and t[1][0] == "arrp":
+        # indexing / slicing an array proxy itself is forwarded to the elements (ArrayProxy.__getitem__): the result is a proxy over
+        # the sliced elements; an element for which the index is invalid makes the whole expression invalid
+        inner = t[1]
+        return ev(("arrp", inner[1]) + tuple((k, e) + t[2:] for e in inner[2:]), env)
     if k == "idx":
         v, w, sg = ev(t[1], env)
         i = t[2]
@@ -216,7 +221,9 @@ def ev(t, env):
         b = ev(t[3], env)
         w, sg = bitwise_shape(a, b)
         return ((a if s[0] != 0 else b)[0], w, sg)
-    if k == "arr":
+    if k in ("arr", "arrp"):
+        # "arrp": the same array access used WITHOUT casting it to a value first (operators, methods and statements receive the
+        # ArrayProxy object itself); every operator of Value applied to a proxy acts on the selected element's value
         i = ev(t[1], env)
         elems = [ev(e, env) for e in t[2:]]
         if i[2] or not (0 <= i[0] < len(elems)):
@@ -234,7 +241,7 @@ def ev(t, env):
 
 def shape_documented(t):
     """False for forms whose result shape the reference documentation does not spell out"""
-    return t[0] != "arr"
+    return t[0] not in ("arr", "arrp")
 
 
 def leaves(t, acc=None):
